@@ -8,8 +8,14 @@ SPEC = {
         'files': [('pkg/secretstore', 'harness/secretstore/zz_verif_common_test.go'),
                   ('pkg/secretstore', 'harness/secretstore/zz_verif_c11_test.go')],
         'model_module': 'Model.C11_Keys', 'shard': 100, 'timeout': 900,
+    }, {
+        'name': 'faults', 'pkg': './pkg/secretstore', 'test': 'TestVerifC11Fault',
+        'files': [('pkg/secretstore', 'harness/secretstore/zz_verif_common_test.go'),
+                  ('pkg/secretstore', 'harness/secretstore/zz_verif_c11_test.go'),
+                  ('pkg/secretstore', 'harness/secretstore/zz_verif_c11fault_test.go')],
+        'model_module': 'Model.C11_Keys', 'shard': 100, 'timeout': 600,
     }],
-    'rule': 'concurrent first use (8 goroutines on a fresh store, oracle only: everyone is handed the keys the store keeps); random histories over 2-3 fresh real SecretStores (each on its own datastore, closed and reopened on it before about every fourth operation: a restart must be invisible): account / proof key, contact group with another store\'s account '
+    'rule': 'fault stream (oracle only, beyond the stated quantifier, which has no failing reads: it holds on the unchanged tree and is kept because an identity must not change for such a reason): a store derives its identities, then every read of a second pass of the same derivations is made to fail in turn with an error that is not no-such-key, then the datastore works again; identities obtained during and after the fault must be those obtained before; concurrent first use (8 goroutines on a fresh store, oracle only: everyone is handed the keys the store keeps); random histories over 2-3 fresh real SecretStores (each on its own datastore, closed and reopened on it before about every fourth operation: a restart must be invisible): account / proof key, contact group with another store\'s account '
             '(both directions), member/device pairs in account, contact and multi-member groups, export, import of another store\'s '
             'export (plain, swapped, same key twice) at any point, malformed / empty / RSA / secp256k1 blobs; results are compared '
             'with the model up to renaming of keys (numbered by first appearance); non-trivial = history with a contact group, '
